@@ -422,6 +422,10 @@ type streamState struct {
 	dWindowEnd int64
 	dAgree     bool
 	dBoundary  map[int64]int // instant -> arrivals at exactly the stored window end (judged in the window before)
+	// after a change of the window size while a window was in progress: the overlap of that window (old size) with
+	// the window of the new size the next request falls into. Whichever of the two governs the transition, at most
+	// the share passes inside the overlap.
+	overlapLo, overlapHi int64
 }
 
 type finding struct {
@@ -546,13 +550,20 @@ func judge(c caseSpec, obs map[int][]verdict, js *judgeStats) []finding {
 				js.inc("nt:request-after-reallocation")
 				js.nt = true
 			}
+			start := floorDiv(t, W) * W
 			if st.lastW != 0 && st.lastW != W {
-				oldEnd := (floorDiv(st.lastT, st.lastW) + 1) * st.lastW
+				oldStart := floorDiv(st.lastT, st.lastW) * st.lastW
+				oldEnd := oldStart + st.lastW
+				st.overlapLo, st.overlapHi = 0, 0
+				if _, realloc := reallocAt[s.Remedy]; t < oldEnd && oldStart >= st.assertFrom && !realloc {
+					// the window of the old size is still in progress and was itself a fully judged one
+					st.overlapLo, st.overlapHi = max(oldStart, start), min(oldEnd, start+W)
+					js.inc("window size changed while a window was in progress")
+				}
 				if a := ceilMult(oldEnd, W); a > st.assertFrom {
 					st.assertFrom = a
 				}
 			}
-			start := floorDiv(t, W) * W
 			wkey := fmt.Sprintf("%d/%d/%d", s.Remedy, W, start)
 			if activeInWindow[wkey] == nil {
 				activeInWindow[wkey] = map[string]bool{}
@@ -624,6 +635,14 @@ func judge(c caseSpec, obs map[int][]verdict, js *judgeStats) []finding {
 			}
 			if v.Admit {
 				st.admitted = append(st.admitted, t)
+			}
+			if v.Admit && st.overlapHi > st.overlapLo && t >= st.overlapLo && t < st.overlapHi && sh.capLo == sh.capHi {
+				if k := countIn(st.admitted, st.overlapLo, st.overlapHi); int64(k) > int64(sh.capHi) {
+					out = append(out, finding{Step: i, Msg: fmt.Sprintf("remedy %s group %q: %d requests passed in [%s,%s) - the part of the window in progress when the window size was changed that also lies in the window of the new size; the share is %d under the old size and under the new one (allowed %d x %.6g%%): the change of the size started the count again",
+						rs.Name, sg, k, offStr(st.overlapLo), offStr(st.overlapHi), sh.capHi, rs.Allowed, sh.pct)})
+				}
+				js.nt = true
+				js.inc("nt:admitted in the overlap of the old and the new window")
 			}
 			st.requests++
 			st.lastT, st.lastW = t, W
